@@ -118,6 +118,8 @@ def alphabet(names):
     ops.append(["add_blackbox", "k.m", None])              # pins k.m.i (clashes with the former), k.m.o
     ops.append(["add", "k.i", "buf", None, None, False])   # a plain node named like a pin
     ops.append(["add", "k.o", "and", [U[0]], None, False])
+    ops.append(["add", "k.o", "bb_input", [U[0]], None, False])   # the output pin's name, as an input pin with a driver
+    ops.append(["add", "k.i", "bb_output", None, None, False])
     for ch in ("c1", "c2"):
         for conn in (None, {"x": U[0]}, {"x": U[0], "g" if ch == "c1" else "w": U[1]}, {"nope": U[0]}, {"x": "q"},
                      {"g" if ch == "c1" else "w": U[0], "x": U[1]}):
@@ -140,7 +142,7 @@ def core_alphabet():
             ["add_subcircuit", "c1", "s", {"x": "a", "g": "b"}], ["add_subcircuit", "c2", "s", {"x": "a"}], ["add_subcircuit", "c2", "k", None],
             ["fill_blackbox", "k", "f1"], ["fill_blackbox", "k", "f3"], ["fill_blackbox", "k", "f2"], ["fill_blackbox", "s_m", "f1"],
             ["fill_blackbox", "k", "f4"], ["add_blackbox", "k", None, "leaf2"], ["add_blackbox", "k.m", None],
-            ["add", "k.i", "buf", None, None, False]]
+            ["add", "k.i", "buf", None, None, False], ["add", "k.o", "bb_input", ["a"], None, False]]
 
 
 def seed_circuits():
